@@ -945,3 +945,27 @@ class Goals:
         return {"status": status, "queries": CTX.queries, "solver_s": round(CTX.solver_s, 3), "twin_ok": twin_ok, "cex": cex,
                 "detail": "; ".join(f"{r['goal']}={r['result']}" for r in results if r["result"] != "holds") + " ".join(self.notes),
                 "goals": [f"{r['goal']}:{r['s']}s" for r in results], "decided_by_cvc5": getattr(CTX, "decided_by_cvc5", 0), "wall_s": round(time.time() - t0, 2)}
+
+
+def ensure_type_sym(val, dtype=None, ndim=None, name="", length=None, can_be_none=False, shape=None, warn_on_cast=True, add_newaxis_on_deficient_ndim=False):
+    """drop-in for mdtraj.utils.validation.ensure_type on symbolic arrays: shape discipline only (the float32 cast is the storage
+    precision, outside the real-arithmetic claims); concrete arrays go to the real function"""
+    if val is None:
+        if can_be_none:
+            return None
+        raise TypeError(name + " must not be None")
+    if not has_sym(val):
+        from mdtraj.utils.validation import ensure_type
+        return ensure_type(val, dtype, ndim, name, length=length, can_be_none=can_be_none, shape=shape, warn_on_cast=warn_on_cast, add_newaxis_on_deficient_ndim=add_newaxis_on_deficient_ndim)
+    a = _np.asarray(val, dtype=object).view(SA)
+    if add_newaxis_on_deficient_ndim and a.ndim == ndim - 1:
+        a = a[None]
+    if a.ndim != ndim:
+        raise ValueError(f"{name} must be {ndim}-dimensional")
+    if shape is not None:
+        for got, want in zip(a.shape, shape):
+            if want is not None and got != want:
+                raise ValueError(f"{name} has shape {a.shape}, expected {shape}")
+    if length is not None and len(a) != length:
+        raise ValueError(f"{name} must have length {length}")
+    return a
